@@ -172,7 +172,16 @@ impl Sut for V {
                         let (announced, ps) = piece(data, src);
                         w.add_file(&name.string(), announced, ps).map(|()| 0).map_err(es)
                     }
-                    WOp::Flush => match w.flush() {
+                    WOp::Flush => match {
+                        // a caller that meets an interrupted flush tries again (bounded: the seam's bursts are short)
+                        let mut r = w.flush();
+                        let mut tries = 0;
+                        while tries < 16 && matches!(&r, Err(e) if e.kind() == std::io::ErrorKind::Interrupted) {
+                            tries += 1;
+                            r = w.flush();
+                        }
+                        r
+                    } {
                         Ok(()) => {
                             out.flush_marks.push((i, sink2.len()));
                             Ok(0)
@@ -236,7 +245,7 @@ impl Sut for V {
                         out.results.push(r);
                         i += 1;
                     }
-                    ROp::Read { .. } | ROp::ReadAll { .. } => {
+                    ROp::Read { .. } | ROp::ReadAll { .. } | ROp::ReadExact { .. } => {
                         out.results.push(RRes::NoFile);
                         i += 1;
                     }
@@ -259,6 +268,26 @@ impl Sut for V {
                                                 }
                                                 Err(e) => out.results.push(RRes::Err(es(e))),
                                             }
+                                            i += 1;
+                                        }
+                                        ROp::ReadExact { total, n } => {
+                                            let mut all = Vec::new();
+                                            let mut err = None;
+                                            while all.len() < *total {
+                                                let mut buf = vec![0u8; (*n).max(1).min(*total - all.len())];
+                                                match f.data.read(&mut buf) {
+                                                    Ok(0) => break,
+                                                    Ok(k) => all.extend_from_slice(&buf[..k]),
+                                                    Err(e) => {
+                                                        err = Some(es(e));
+                                                        break;
+                                                    }
+                                                }
+                                            }
+                                            out.results.push(match err {
+                                                None => RRes::Bytes(all),
+                                                Some(e) => RRes::Err(e),
+                                            });
                                             i += 1;
                                         }
                                         ROp::ReadAll { n } => {
